@@ -393,9 +393,20 @@ Definition h_fund (c : cfg) (s : hstate) (height : Z) (cid : N) (deps : list dep
   '(rev', cost) ←ᵣ revise_fund (ce_rev ce) total;                                      (* 436-439 *)
   commit c s height cid ce rev' (ce_nroots ce) cost rsig (Some (false, deps)).          (* 441-456 *)
 
-(** handleRPCReplenishAccounts / handleRPCReplenishPools (server.go:459-531 / 533-602) *)
+(** handleRPCReplenishAccounts / handleRPCReplenishPools (server.go:459-536 / 538-612) *)
+(** the deposit of each listed account is [target - balance], where deposits already
+    planned for the same account earlier in the batch count towards its balance
+    (commit "fix: replenish must not credit an account or pool listed twice beyond the target") *)
+Fixpoint replenish_deposits_from (bal pending : gmap N Z) (accts : list N) (target : Z) : list deposit :=
+  match accts with
+  | [] => []
+  | a :: rest =>
+      let b := default 0 (bal !! a) + default 0 (pending !! a) in
+      let amt := if target <? b then 0 else target - b in
+      mk_dep a amt :: replenish_deposits_from bal (<[a := default 0 (pending !! a) + amt]> pending) rest target
+  end.
 Definition replenish_deposits (bal : gmap N Z) (accts : list N) (target : Z) : list deposit :=
-  map (λ a, let b := default 0 (bal !! a) in mk_dep a (if target <? b then 0 else target - b)) accts.
+  replenish_deposits_from bal ∅ accts target.
 Definition h_replenish (c : cfg) (s : hstate) (height : Z) (pool : bool) (cid : N) (accts : list N)
     (target : Z) (chal : sig) (rsig : option sig) : res (hstate * resp) :=
   _ ←ᵣ check (is_cur target && (Z.of_nat (length accts) <=? MaxAccountBatchSize)) VDecode; (* 460-462 *)
